@@ -3,8 +3,8 @@ package main
 import (
 	"encoding/json"
 	"flag"
-	"go/constant"
 	"fmt"
+	"go/constant"
 	"os"
 	"regexp"
 	"runtime/pprof"
@@ -40,6 +40,7 @@ func main() {
 	trace := flag.Bool("trace", false, "trace instructions (single worker)")
 	solver := flag.String("solver", "z3 -in", "solver command")
 	mapperm := flag.Bool("mapperm", false, "explore all map iteration orders")
+	maprev := flag.Bool("maprev", false, "explore two iteration orders per map range: as built and reversed (flips the relative order of every pair)")
 	twice := flag.Bool("twice", false, "execute every entry twice per path with the same inputs and require the same outcomes (2-safety, C20)")
 	deadline := flag.Int("deadline", 0, "seconds per entry before truncation (0 = none)")
 	cpuprof := flag.String("cpuprofile", "", "write a CPU profile")
@@ -96,7 +97,7 @@ func main() {
 	}
 	sort.Slice(fns, func(i, j int) bool { return fns[i].Name() < fns[j].Name() })
 	for _, f := range fns {
-		cfg := ExploreCfg{Workers: *workers, SolverCmd: strings.Fields(*solver), TimeoutMs: *timeout, MaxPaths: *maxPaths, MapPerm: *mapperm, Twice: *twice}
+		cfg := ExploreCfg{Workers: *workers, SolverCmd: strings.Fields(*solver), TimeoutMs: *timeout, MaxPaths: *maxPaths, MapPerm: *mapperm || *maprev, MapRev: *maprev && !*mapperm, Twice: *twice}
 		if *deadline > 0 {
 			cfg.Deadline = time.Now().Add(time.Duration(*deadline) * time.Second)
 		}
